@@ -46,9 +46,15 @@ type Res struct {
 	z  *data.ZVal
 }
 
+var withStd bool
+
 func newVM() *ort.VM {
-	p := parser.NewParser()
-	vm := ort.NewVM(p).(*ort.VM)
+	var vm *ort.VM
+	if withStd {
+		vm, _ = vrun.NewVM()
+	} else {
+		vm = ort.NewVM(parser.NewParser()).(*ort.VM)
+	}
 	vm.SetThrowControl(func(acl data.Control) {})
 	if autoDir != "" {
 		vm.AddNamespace("App", autoDir)
@@ -211,6 +217,17 @@ func doOp(vm data.VM, o Op) (res Res) {
 				res.D = srcID(x.GetFrom())
 			}
 		}
+	case "incwait":
+		// include (LoadAndRun on this VM) of a file whose TOP-LEVEL code spawns two coroutines that instantiate the
+		// autoloadable class o.Name and waits for both over a Channel: the include returns only if coroutines of the same
+		// request can autoload while the including goroutine is running the file's code
+		nIncwait := atomic.AddInt64(&incwaitSeq, 1)
+		path := filepath.Join(autoDir, fmt.Sprintf("incwait%d.php", nIncwait))
+		src := "<?php\n$c10ch = new Channel(0);\nfor ($c10i = 0; $c10i < 2; $c10i++) {\n    spawn(function() use ($c10ch) { $o = new \\" + o.Name + "(); $c10ch->send(1); });\n}\n$c10ch->receive();\n$c10ch->receive();\n"
+		os.WriteFile(path, []byte(src), 0o644)
+		if _, acl := vm.LoadAndRun(path); acl != nil {
+			res.R = 1
+		}
 	case "alunreg":
 		if o.Val >= 0 && o.Val < len(callbacks) {
 			parser.RemoveAutoLoad(callbacks[o.Val])
@@ -298,6 +315,12 @@ type Config struct {
 	// defines only classes named Dyn<k>_* and declines everything else, the LAST one defines every Dyn* class.
 	// ops alunreg/alreg (val = k) unregister / register callback k while other goroutines look classes up.
 	Callbacks int `json:"callbacks"`
+	// Age n: before the first run of this child process n trivial goroutines are started and finished, so that the
+	// goroutines of the run have ids above n (a server that has been up for a while: every connection and every spawn
+	// is a goroutine; the re-entrant load lock identifies its owner by goroutine id)
+	Age int `json:"age"`
+	// Std: the VM gets the standard library (Channel, spawn ...): needed by op incwait
+	Std bool `json:"std"`
 }
 
 // alCallback: a Go-implemented spl autoload callback ($name) -> defines class $name (from file d<5000+k>.php) when it is
@@ -333,11 +356,29 @@ func (c *alCallback) Call(ctx data.Context) (data.GetValue, data.Control) {
 }
 
 var callbacks []*data.FuncValue
+var incwaitSeq int64
 
 // a run in which no op completes for this long is a hang
 const hangAfter = 3 * time.Second
 
+var aged int
+
+func ageProcess(n int) {
+	for aged < n {
+		var wg sync.WaitGroup
+		k := 10000
+		wg.Add(k)
+		for i := 0; i < k; i++ {
+			go wg.Done()
+		}
+		wg.Wait()
+		aged += k
+	}
+}
+
 func runOnce(cfg *Config) [][]Res {
+	ageProcess(cfg.Age)
+	withStd = cfg.Std
 	vm := newVM() // NewVM resets the process-wide autoload callback list
 	callbacks = nil
 	for k := 0; k < cfg.Callbacks; k++ {
